@@ -156,9 +156,26 @@ def _param_roots(f, op, depth=0, seen=None):
     return out
 
 
-def _name_tests(f):
-    """(method, literal) tests on a file name in f"""
+def _name_tests(f, depth=0):
+    """(method, literal) tests on a file name in f and in the local helper functions it calls / passes (two levels)"""
     out = set()
+    if depth < 2:
+        for bb, c in f.calls():
+            tgt = []
+            if c.get("res_local") and c.get("res") in f.crate.fns:
+                tgt.append(c["res"])
+            for cid, loc in c.get("clos", []):
+                g = f.crate.fns.get(cid)
+                if g is not None and g.kind in ("fn", "method"):
+                    tgt.append(cid)
+            for a in c["args"]:
+                k = op_const(a)
+                if k and k.get("res_local") and k.get("res") in f.crate.fns:
+                    tgt.append(k["res"])
+            for t in tgt:
+                g = f.crate.fns[t]
+                if g.id != f.id and len(g.blocks) < 80:
+                    out |= _name_tests(g, depth + 1)
     for bb, c in f.calls():
         res = c.get("res") or ""
         m = re.search(r"<impl str>::(starts_with|ends_with|contains)$", res)
